@@ -123,7 +123,7 @@ func init() {
 	}
 	registry["C08"] = func() Check {
 		return &SeqCheck{Prop: "C08",
-			Ideal: famReady(3, 2, 5), IdealDeep: famReady(3, 2, 7), IdealProps: []string{"P_C08"}, IdealInvs: []string{"CodeReadyIsSpecReady"}, Probes: probeClaimOrder,
+			Ideal: famReady(3, 2, 5), IdealDeep: famReady(3, 2, 6), IdealProps: []string{"P_C08"}, IdealInvs: []string{"CodeReadyIsSpecReady"}, Probes: probeClaimOrder,
 			Proc:     &ProcCheck{Prop: "C08", Scenarios: "ClaimScenarios", IdealInvs: []string{"Serializable"}, Only: []string{"C08_serial"}, MaxRunsQuick: 500},
 			GenQuick: famReady(2, 2, 4), GenThorough: famReady(3, 2, 6), SampleQuick: 120,
 			CraftQuick: famCraft(700, "claim", "list_ready"), CraftThorough: famCraft(8000, "claim", "list_ready"),
